@@ -345,6 +345,13 @@ def r4(ctx, facts):
         r.instance("no-underflow", not bad, "a subtraction inside the offset can go below zero: %s (needs the shape (.. + n) - (value < n))" % "; ".join(bad), span)
         return form
 
+    if ret is not None and ret[0] == "call" and ret[1] == "filter" and len(ret) == 4 and isinstance(ret[3], tuple) and ret[3][0] == "closure":
+        # `checked_add(..).filter(|&p| p <= end)`: the port is the sum on its success path, the guard is the closure's answer for it
+        cbf = facts.body(ret[3][1])
+        gr, _ = ev.eval_body(cbf, [("tuple",) + tuple(_resolve_caps(ret[3], env, ev, b)), ret[2]], 1) if cbf is not None else (None, None)
+        if gr is None:
+            raise AnchorLost("calculate_lowest_port_for_shard_in_range: the predicate of Option::filter is not straight-line")
+        ret = ("call", "then_some", gr, ret[2])
     if ret is not None and ret[0] == "call" and ret[1] in ("then_some", "then") and len(ret) == 4:
         G, X = norm(ret[2], False), ret[3]
         if ret[1] == "then":
@@ -462,6 +469,27 @@ def xslice(facts, body, op, acc=None, depth=0, want=()):
             site = creation_site(facts, body)
             if site is not None and w[0] < len(site[3][2][2]):
                 xslice(facts, site[0], site[3][2][2][w[0]], acc, depth + 1, w[1:])
+            continue
+        if body.kind == "Closure" and 2 <= l <= body.argc:
+            # the parameter of a closure handed to an Option / Result combinator is the payload of that call's receiver
+            site = creation_site(facts, body)
+            if site is not None:
+                par, cl_local = site[0], site[3][1][0]
+                for bbp, cp in par.calls():
+                    if bbp not in par.live_blocks or len(cp.args) < 2:
+                        continue
+                    nmp = (cp.decl or cp.name or "").split("::")[-1]
+                    if nmp not in ("map", "and_then", "map_or", "map_or_else", "filter", "is_some_and", "is_none_or", "inspect", "then"):
+                        continue
+                    for a in cp.args[1:]:
+                        if a[0] in ("c", "m"):
+                            la = a[1][0]
+                            for _ in range(4):
+                                sdp = par.single_def(la)
+                                if sdp and sdp[0] == "stmt" and sdp[3][0] == "use" and sdp[3][1][0] in ("c", "m"):
+                                    la = sdp[3][1][1][0]
+                            if la == cl_local:
+                                xslice(facts, par, cp.args[0], acc, depth + 1)
             continue
         for d in body.defs.get(l, []):
             if d[0] == "call":
@@ -610,39 +638,67 @@ def r6(ctx, facts):
             r.instance("empty-only-without-lowest-port", ok, "the empty iterator is returned where calculate_lowest_port_for_shard_in_range is not known to have answered None", cl.span)
     # draw
     db = facts.one(r"^%sSharder::draw_source_port_for_shard_from_range$" % S)
-    ddf = df_of(db, facts)
-    ddj = dj_of(db, facts)
-    n_some = 0
-    for bb in sorted(db.live_blocks):
-        for j, st in enumerate(db.stmts(bb)):
-            if st[0] == "A" and st[1][0] == 0 and not st[1][1] and st[2][0] == "agg" and st[2][1][0] == "adt" and st[2][1][1] == "core::option::Option":
-                if st[2][1][2] == "Some":
-                    n_some += 1
-                    sl = xslice(facts, db, st[2][2][0])
+    lows_db = db.calls_to("calculate_lowest_port_for_shard_in_range")
+    ELEM = ("nth", "next", "last", "choose", "nth_back", "next_back")
+    state = {"n": 0}
+
+    def port_from(body, op, span, what):
+        sl = xslice(facts, body, op)
+        nms = [n.split("::")[-1] for n in _names(sl)]
+        elem = [n for n in nms if n in ELEM]
+        state["n"] += 1
+        r.instance("drawn-port-is-an-element", bool(elem) and "step_by" in nms and not _arith(sl_without_index(facts, body, op)),
+                   "the drawn port (%s) must be an element taken from a stepped range, unchanged (derives from %s)" % (what, sorted(set(nms))), span)
+
+    def draw_body(body, depth=0):
+        ddj = dj_of(body, facts)
+        for bb in sorted(body.live_blocks):
+            for j, st in enumerate(body.stmts(bb)):
+                if not (st[0] == "A" and st[1][0] == 0 and not st[1][1]):
+                    continue
+                if st[2][0] == "agg" and st[2][1][0] == "adt" and st[2][1][1] == "core::option::Option":
+                    if st[2][1][2] == "Some":
+                        port_from(body, st[2][2][0], body.stmt_span(st), "Some(port)")
+                    elif body.path == db.path:
+                        ok = bool(lows_db)
+                        for stt in ddj.states_before_stmt(bb, j):
+                            if not in_set(stt.get(("disc", (lows_db[0].dest[0], ()))) if lows_db else None, {0}):
+                                ok = False
+                        r.instance("none-only-without-lowest-port", ok, "None is returned where a lowest port may exist", body.stmt_span(st))
+                elif st[2][0] == "use" and body.local_ty(0) in ("u16",) and st[2][1][0] in ("c", "m"):
+                    port_from(body, st[2][1], body.stmt_span(st), "returned port")
+            t = body.term(bb)
+            if t[0] == "call" and t[3][0] == 0 and not t[3][1]:
+                cl = next(x for b2, x in body.calls() if b2 == bb)
+                nm = (cl.decl or cl.name or "").split("::")[-1]
+                if (cl.decl or "").endswith("FromResidual::from_residual"):
+                    continue
+                if nm in ELEM and cl.args:
+                    sl = xslice(facts, body, cl.args[0])
                     nms = [n.split("::")[-1] for n in _names(sl)]
-                    elem = [n for n in nms if n in ("nth", "next", "last", "choose", "nth_back", "next_back", "min", "max")]
-                    ok = bool(elem) and "step_by" in nms and not _arith(sl_without_index(facts, db, st[2][2][0]))
-                    r.instance("drawn-port-is-an-element", ok, "the drawn port must be an element taken from a stepped range, unchanged (derives from %s)" % sorted(set(nms)), db.stmt_span(st))
-                else:
-                    lows = db.calls_to("calculate_lowest_port_for_shard_in_range")
-                    ok = bool(lows)
-                    for stt in ddj.states_before_stmt(bb, j):
-                        if not in_set(stt.get(("disc", (lows[0].dest[0], ()))) if lows else None, {0}):
-                            ok = False
-                    r.instance("none-only-without-lowest-port", ok, "None is returned where a lowest port may exist", db.stmt_span(st))
-    # `?` on the lowest port is the only other exit
-    for bb, cl in db.calls():
-        if bb in db.live_blocks and cl.dest[0] == 0 and not (cl.decl or "").endswith("FromResidual::from_residual"):
-            nm = (cl.decl or cl.name or "").split("::")[-1]
-            if nm in ("nth", "next", "last", "choose", "nth_back", "next_back") and cl.args:
-                sl = xslice(facts, db, cl.args[0])
-                nms = [n.split("::")[-1] for n in _names(sl)]
-                n_some += 1
-                r.instance("drawn-port-is-an-element", "step_by" in nms, "the drawn port must be an element taken from a stepped range (receiver derives from %s)" % sorted(set(nms)), cl.span)
-                continue
-            r.fail("draw-exit-shape", "draw returns the result of %s(..) directly: not recognised as an element of a stepped range" % fn_short(cl.name or "?"), cl.span)
-    if n_some == 0:
+                    state["n"] += 1
+                    r.instance("drawn-port-is-an-element", "step_by" in nms, "the drawn port must be an element taken from a stepped range (receiver derives from %s)" % sorted(set(nms)), cl.span)
+                    continue
+                if nm in ("unwrap", "expect", "unwrap_unchecked") and cl.args and body.local_ty(0) == "u16":
+                    port_from(body, cl.args[0], cl.span, "unwrapped element")
+                    continue
+                if nm in ("map", "and_then") and len(cl.args) == 2 and depth < 3:
+                    # `lowest?` written as `lowest.map(|p| ..)`: the closure is the rest of the function
+                    sd = body.single_def(cl.args[1][1][0]) if cl.args[1][0] in ("c", "m") else None
+                    cbd = facts.body(sd[3][1][1]) if sd and sd[0] == "stmt" and sd[3][0] == "agg" and sd[3][1][0] == "closure" else None
+                    _, csr, _ = field_slice_(body, cl.args[0])
+                    if cbd is not None and any((x.name or "").endswith("calculate_lowest_port_for_shard_in_range") for x in csr):
+                        draw_body(cbd, depth + 1)
+                        continue
+                r.fail("draw-exit-shape", "draw returns the result of %s(..) directly: not recognised as an element of a stepped range" % fn_short(cl.name or "?"), cl.span)
+    draw_body(db)
+    if state["n"] == 0:
         raise AnchorLost("draw_source_port_for_shard_from_range: no exit that hands out a port")
+
+
+def field_slice_(body, op):
+    from ..util import field_slice
+    return field_slice(body, op)
 
 
 def sl_without_index(facts, body, op):
